@@ -38,10 +38,7 @@ variable (Afun : List α → List α) (dnorm : List α → ρ)
 theorem lanczos_shapes {vstart : List α} {numiter : Nat} {alpha beta : List ρ} {V : Mat α}
     (h : lanczos Afun dnorm vstart numiter = .ok (alpha, beta, V)) :
     1 ≤ alpha.length ∧ alpha.length ≤ numiter ∧ beta.length = alpha.length - 1 ∧
-      V.m = vstart.length ∧ V.n = alpha.length := by
-  obtain ⟨st, hc, rfl, rfl, rfl⟩ := lanczos_ok Afun dnorm h
-  obtain ⟨k, h1, h2, ha, hb, hv⟩ := lanczosCore_sized Afun dnorm hc
-  exact ⟨by omega, by omega, by omega, rfl, by simp [colsMat, hv, ha]⟩
+      V.m = vstart.length ∧ V.n = alpha.length := lanczos_sizes Afun dnorm h
 
 /-- **The call returns** exactly when the start vector has positive norm and `numiter ≥ 1`; otherwise it raises
 `AssertionError` (`assert nrmv > 0`) resp. `ValueError` (`np.zeros(-1)`).  In particular an exhausted Krylov space
